@@ -446,7 +446,7 @@ class Chol(Composite):
         return "pd"
 
     def make(self, rng, kind, n, m, batch, depth, dtype):
-        upper = rng.random() < 0.5
+        upper = rng.random() < 0.15
         s = _base(self.name, "pd", n, m, batch, dtype, rng, upper=upper)
         s["children"] = [_gen(rng, "triu" if upper else "tril", n, n, batch, 1, dtype, allow=["Triangular"])]
         return s
